@@ -834,12 +834,16 @@ func TestVerifC15Leaf(t *testing.T) {
 	}
 	wg.Wait()
 	c.Count("table_entries", len(table))
+	if c.Violations() > 0 {
+		return // exploration was cut short; the verdict is the violation, not vacuity
+	}
 	for _, cl := range []string{"account-field", "account-addr", "resource-field", "resource-cidx", "resource-addr", "resource-addr|cidx-boundary",
 		"resource-flags", "kind-swap-asset-app", "update-round-prefix-equal", "kv-value", "kv-name", "kv-appid", "kv-appid|name-boundary",
 		"kv-key|value-boundary", "cross-kind-kv-account", "cross-kind-kv-resource"} {
 		c.Require("pairs:"+cl, 100)
 	}
 	c.Require("pairs_distinct_leaves", int64(n/2))
+	c.Require("kv_boundary_collisions_between_legal_boxes", 1) // the known finding must still be observed, otherwise its entry is stale
 }
 
 // c15Witness pins the concrete witness of the known finding and checks that both boxes are
